@@ -38,7 +38,9 @@ def _show_ints(l):
 def _render(v):
     if isinstance(v, bool):
         return "true" if v else "false"
-    if isinstance(v, dict):  # captured create() call
+    if isinstance(v, dict) and not isinstance(v, Raw):  # an insertion-ordered dict str -> list[int]
+        return " | ".join(f"{k}: {_show_ints(x)}" for k, x in v.items())
+    if isinstance(v, Raw):  # captured create() call
         return ("gens: " + " | ".join(_show_ints(g) for g in v["gens"])
                 + " ; central: " + ("none" if v["central"] is None else _show_ints(v["central"]))
                 + " ; names: " + ("none" if v["names"] is None else " | ".join(v["names"]))
@@ -46,6 +48,26 @@ def _render(v):
     if v and isinstance(v[0], (list, tuple)):
         return " | ".join(_show_ints(g) for g in v)
     return _show_ints(v)
+
+
+class Raw(dict):
+    """the raw arguments of an intercepted `CayleyGraphDef.create` call"""
+
+
+def globe_requests(thorough):
+    import cayleypy.puzzles.globe as gb
+
+    reqs = []
+    for s in range(-1, 6):
+        for f in range(-1, 7):
+            for n in range(-1, 8):
+                reqs.append(("Globe.help_cyclic", gb.help_cyclic, [s, f, n]))
+    top = 7 if thorough else 5
+    for a in range(-1, top + 1):
+        for b in range(-1, top + 1):
+            reqs.append(("Globe.globe_gens", gb.globe_gens, [a, b]))
+            reqs.append(("Globe.globe_puzzle", gb.globe_puzzle, [a, b]))
+    return reqs, gb
 
 
 def perm_requests(rng, thorough):
@@ -133,6 +155,10 @@ def run(ck, report, rng, thorough=False, which=("perm", "fam")):
     if "fam" in which:
         fr, CGD = family_requests(report.get("graphs_lib", {}), thorough)
         reqs += fr
+    GB = None
+    if "globe" in which:
+        gr, GB = globe_requests(thorough)
+        reqs += gr
     lines = [f"{fn} ; {_fmt_args(args)}" for fn, _, args in reqs]
     r = subprocess.run(["lake", "env", "lean", "--run", "PyRun.lean"], cwd=LEAN_DIR, input="\n".join(lines) + "\n",
                        capture_output=True, text=True, timeout=1800)
@@ -145,14 +171,26 @@ def run(ck, report, rng, thorough=False, which=("perm", "fam")):
     if CGD is not None:
         orig = CGD.__dict__["create"]
 
-        def fake_create(generators, central_state=None, generator_names=None, name=None, **kw):
+        def fake_create(generators, generator_names=None, central_state=None, name=None, **kw):
             if kw:
                 raise TypeError("unexpected keyword")
-            captured["v"] = {"gens": [list(g) for g in generators], "central": None if central_state is None else list(central_state),
-                             "names": None if generator_names is None else list(generator_names), "name": name}
+            captured["v"] = Raw({"gens": [list(g) for g in generators], "central": None if central_state is None else list(central_state),
+                                 "names": None if generator_names is None else list(generator_names), "name": name})
             return captured["v"]
 
         CGD.create = staticmethod(fake_create)
+    orig_gb = None
+    if GB is not None:
+        # globe.py binds `CayleyGraphDef` at import time (from cayleypy.cayley_graph): intercept `create` on that class object
+        G_CGD = GB.CayleyGraphDef
+        if CGD is None or G_CGD is not CGD:
+            orig_gb = G_CGD.__dict__["create"]
+
+            def fake_create2(generators, generator_names=None, central_state=None, name=None, **kw):
+                return Raw({"gens": [list(g) for g in generators], "central": None if central_state is None else list(central_state),
+                            "names": None if generator_names is None else list(generator_names), "name": name})
+
+            G_CGD.create = staticmethod(fake_create2)
     n_cmp = 0
     try:
         for (fn, f, args), ans in zip(reqs, answers):
@@ -174,6 +212,8 @@ def run(ck, report, rng, thorough=False, which=("perm", "fam")):
     finally:
         if orig is not None:
             CGD.create = orig
+        if orig_gb is not None:
+            GB.CayleyGraphDef.create = orig_gb
     return n_cmp
 
 
